@@ -111,12 +111,15 @@ Judge(e) ==
          LET r == DecZeroToOne(e.b, 1) IN
          r.n > 0 /\ r.n = Len(e.b) /\ AngleMatch(e.v, r.v)
     [] e.ev = "dec" ->
-         LET r == Dec(e.kind, e.b, 1) IN
+         \* kind "arcflags": a natural number read as the flags operand of an arc - the two low bits are delivered
+         LET r == Dec(IF e.kind = "arcflags" THEN "natural" ELSE e.kind, e.b, 1) IN
          IF r.n = 0 THEN e.ok = 0 /\ e.n <= 0
          ELSE /\ r.n = Len(e.b)                 \* the driver sends complete or cut numbers only
               /\ e.ok = 1
               /\ (e.n = -1 \/ e.n = r.n)
-              /\ IF e.kind = "natural" THEN e.u = r.u ELSE Same(e.v, r.v)
+              /\ IF e.kind = "natural" THEN e.u = r.u
+                 ELSE IF e.kind = "arcflags" THEN e.u = r.u % 4
+                 ELSE Same(e.v, r.v)
     [] e.ev = "reenc" ->
          LET r == Dec(e.kind, e.b, 1) IN
          /\ r.n = Len(e.b)
